@@ -3,6 +3,9 @@
 package vm
 
 import (
+	"bufio"
+	"io"
+
 	"github.com/paulsonkoly/calc/memory"
 	"github.com/paulsonkoly/calc/types/bytecode"
 )
@@ -69,3 +72,6 @@ func countContexts(c *context) int {
 	})
 	return n
 }
+
+// SetStdin makes read() consume r instead of os.Stdin (simulated input streams).
+func SetStdin(r io.Reader) { stdin = bufio.NewReader(r) }
